@@ -784,6 +784,8 @@ class Router:
                 + geo_broadcast_extended_header.encode()
                 + request.data
             )
+            # One snapshot of the ego position: both coordinates belong to the same position.
+            ego_position_vector = self.ego_position_vector
             sign_request = SNSIGNRequest(
                 tbs_message_length=len(tbs_payload),
                 tbs_message=tbs_payload,
@@ -791,8 +793,8 @@ class Router:
                 permissions=request.security_permissions,
                 permissions_length=len(request.security_permissions),
                 generation_location={
-                    "latitude": self.ego_position_vector.latitude,
-                    "longitude": self.ego_position_vector.longitude,
+                    "latitude": ego_position_vector.latitude,
+                    "longitude": ego_position_vector.longitude,
                     "elevation": 0xF000,  # Uint16 unavailable per IEEE 1609.2
                 },
             )
